@@ -22,6 +22,8 @@ import numpy as np
 import os
 import tensorflow as tf
 
+from .base_quantizer import BaseQuantizer
+
 
 class QNoiseScheduler(tf.keras.callbacks.Callback):
   """Schedules the gradual quantization noise training for each step (or epoch).
@@ -156,6 +158,17 @@ class QNoiseScheduler(tf.keras.callbacks.Callback):
         for quantizer in layer.get_quantizers():
           if hasattr(quantizer, "qnoise_factor"):
             all_quantizers.append(quantizer)
+
+    # Quantizers that are not reachable through the attributes above: layers
+    # of nested models, layers inside wrappers (TimeDistributed, Bidirectional,
+    # RNN around a quantized cell) and the (recurrent) activation quantizers
+    # of recurrent cells.
+    known = set(id(quantizer) for quantizer in all_quantizers)
+    for module in model.submodules:
+      if (isinstance(module, BaseQuantizer) and
+          hasattr(module, "qnoise_factor") and id(module) not in known):
+        known.add(id(module))
+        all_quantizers.append(module)
 
     return all_quantizers
 
